@@ -7,8 +7,30 @@ T = lambda s: [ord(c) for c in s]  # noqa: E731
 TOK = ["#", "/", ":", "?", "@", "[", "]", "&", "+", ";", "=", "%", "%41", "%2F", " ", "\t", "\x00", "\x7f", "\xa0", " ", "é", "ü",
        "\U0001F600", "℀", "a", "Z", "0", ".", "-", "~", "'", "(", "!", "*", ",", "$", "_", "日本", "́", "​", "﻿", "℡",
        "\x85", "　", "\\", "\"", "<", "|", "^", "`", "{"]
-HOSTS = ["example.com", "bücher.example", "1.2.3.4", "::1", "fe80::1%eth0", "2001:db8::1", "h", "日本.jp", "EXAMPLE.Com", "a_b", "h."]
-FIELDS = ["str", "val", "human_repr", "host", "raw_host"]
+HOSTS = ["example.com", "bücher.example", "1.2.3.4", "::1", "fe80::1%eth0", "2001:db8::1", "h", "日本.jp", "EXAMPLE.Com", "a_b", "h.",
+         # hosts only the IDNA-2003 codec (the library's fallback) accepts: symbols, an underscore next to an IDN label
+         "☃.net", "😀.example", "_srv.хост.домен", "a_b.münchen.de", "хост_1.домен", "Bücher.EXAMPLE", "straße.de"]
+FIELDS = ["str", "val", "human_repr", "host", "raw_host", "user", "password"]
+DEFAULTS = {"http": 80, "https": 443, "ws": 80, "wss": 443, "ftp": 21}
+
+
+def step(rnd, scheme):
+    """a non-encoding modifier with a decoded argument: states URL.build cannot produce directly (an explicit default port, a
+    port that became the default through a scheme change, a host replaced by an IDN one)"""
+    r = rnd.random()
+    if r < 0.3:
+        return {"op": "with_port", "v": tv_of(rnd.choice([DEFAULTS.get(scheme, 80), 80, 443, 21, None, 8080]))}
+    if r < 0.5:
+        return {"op": "with_scheme", "v": T(rnd.choice(["http", "https", "ws", "wss", "ftp", "x"]))}
+    if r < 0.65:
+        return {"op": "with_host", "v": T(rnd.choice(HOSTS))}
+    if r < 0.75:
+        return {"op": "with_user", "v": [T(txt(rnd))]}
+    if r < 0.85:
+        return {"op": "with_password", "v": [T(txt(rnd))]}
+    if r < 0.93:
+        return {"op": "with_fragment", "v": [T(txt(rnd))]}
+    return {"op": "with_name", "v": T(txt(rnd, 2).replace("/", "")), "encoded": False, "keep_query": True, "keep_fragment": True}
 
 
 def txt(rnd, n=3):
@@ -18,7 +40,8 @@ def txt(rnd, n=3):
 def gen(params):
     rnd = random.Random(params.get("seed", 0))
     for _ in range(params["n"]):
-        kw = {"scheme": T(rnd.choice(["http", "https", "ws", "ftp", "x", "git+ssh"])), "host": T(rnd.choice(HOSTS))}
+        scheme = rnd.choice(["http", "https", "ws", "ftp", "x", "git+ssh"])
+        kw = {"scheme": T(scheme), "host": T(rnd.choice(HOSTS))}
         if rnd.random() < 0.5:
             kw["user"] = [T(txt(rnd))]
         if rnd.random() < 0.4:
@@ -33,4 +56,7 @@ def gen(params):
             kw["query"] = {"form": "pairs", "s": [], "pairs": pairs}
         if rnd.random() < 0.5:
             kw["fragment"] = T(txt(rnd))
-        yield {"prog": [{"op": "build", "kw": kw}], "fields": FIELDS, "extras": ["human"]}
+        prog = [{"op": "build", "kw": kw}]
+        for _ in range(rnd.choice((0, 0, 1, 2))):
+            prog.append(step(rnd, scheme))
+        yield {"prog": prog, "fields": FIELDS, "extras": ["human"]}
